@@ -149,6 +149,10 @@ def opFsReq (args : List SExp) : Option OpResult := do
           ((r.method = "COPY" || r.method = "MOVE") && (match r.dest with | .path d => (target d).isNone | _ => false))
         let c03 := (if canary then [("C03", "outside-root-touched")] else []) ++
           (if unmappable && !(400 ≤ resp.status && resp.status < 500) then [("C03", s!"unmappable-path-answered-{resp.status}")] else [])
+        -- C03, second clause: every href a PROPFIND reports maps back to a resource of the tree
+        let c03 := c03 ++ (if r.method = "PROPFIND" && resp.status = 207 &&
+            !(resp.multi.all (fun x => match target x.1 with | some q => (lookup t q).isSome | none => false))
+          then [("C03", "reported-href-does-not-address-a-resource")] else [])
         let c13 := if resp.status ≥ 500 && !faulted r && !cancelled && !abstain then [("C13", s!"{r.method}-answered-{resp.status}")] else []
         let conditional := (r.method = "PUT" || r.method = "DELETE") && (r.ifMatch != .unset || r.ifNoneMatch != .unset)
         let c04 := if conditional && (!c01.isEmpty || !c02.isEmpty) then [("C04", s!"{r.method}-precondition-answered-{resp.status}")] else []
